@@ -372,14 +372,38 @@ def correspond(ctx):
     classes = {}
     for i in bad:
         k = cases[i]
-        cl = 'ctor:' + k['name'] if 'name' in k else k['k'] + ':' + json.dumps(k['env']['curves'] if k['k'] == 'at' else '')
-        classes.setdefault(cl, i)
-    for i in sorted(classes.values())[:8]:
+        sig = classify(k, out[i])
+        cl = sig or ('ctor:' + k['name'] if 'name' in k else k['k'] + ':' + json.dumps(k['env']['curves'] if k['k'] == 'at' else ''))
+        classes.setdefault(cl, (i, sig))
+    for i, sig in sorted(classes.values())[:8]:
         k = shrink(ctx, cases[i], eps_t)
         o = ctx.impl('c19_env', {'cases': [k]})['out'][0]
         c.failures.append(Failure('correspondence', 'model/Env.v and the implementation disagree on %s: impl=%s' % (
-            json.dumps(k)[:600], json.dumps(o)[:600]), replay={'case': k, 'impl': o}))
+            json.dumps(k)[:600], json.dumps(o)[:600]), replay={'case': k, 'impl': o}, signature=sig))
     return c
+
+
+def classify(k, o):
+    """signature of a disagreement that is explained by one of the defects this check has found before
+    (the law probe of search() reports the same signature with a minimal input)"""
+    def curve_names(c):
+        cs = c if is_listspec(c) else [c]
+        return {x[1] for x in cs if x[0] == 'N'}
+    def has_negative(lv):
+        return any(Fraction(x[1]) < 0 for x in (lv or []))
+    if k['k'] == 'at' and 'env' in k:
+        names, neg = curve_names(k['env']['curves']), has_negative(k['env']['levels'])
+        if neg and names & {'squared', 'sqr'}:
+            return 'C19:sqr_negative_levels'
+        if neg and names & {'cub', 'cubed', 'exp', 'exponential'}:
+            return 'C19:pow_sign_cub'
+    if k.get('name') == 'step' and 'release_level' not in k['args'] and isinstance(o.get('env'), dict) \
+            and o['env'].get('err') == 'TypeError':
+        return 'C19:step_default_release'
+    js = json.dumps(k)
+    if '"sqr"' in js and isinstance(o.get('env'), dict) and o['env'].get('err') == 'ValueError':
+        return 'C19:shape_name_sqr'
+    return None
 
 
 def disagrees(ctx, k, eps_t):
